@@ -73,7 +73,7 @@ def GetMapping : List String := ["HTTPDomainMappingKey", "storage.Get"]
 def LookupByDomain : List String := ["HTTPDomainIndexKey", "storage.Get", "GetMapping"]
 def Registry_LookupByHost : List String := ["Lookup"]
 def Registry_Register : List String := ["FullDomain", "IsBaseDomainAllowed", "mu.Lock", "mu.Unlock"]
-def UpdateMapping : List String := ["GetMapping", "Validate", "HTTPDomainMappingKey", "storage.Set", "SetNX"]
+def UpdateMapping : List String := ["GetMapping", "Validate", "HTTPDomainMappingKey", "storage.Set"]
 def generateMappingID : List String := ["Incr"]
 def lookupFromRepositoryWithRepo : List String := ["repo.LookupByDomain", "IsActive", "IsExpired", "convertHTTPDomainMappingToPortMapping"]
 def lookupMapping : List String := ["extractDomain", "lookupFromRepositoryWithRepo", "IsCode", "registry.LookupByHost", "CloudControl.GetPortMappingByDomain", "registry.Register"]
